@@ -3,7 +3,38 @@ use crate::utils::state::get_sub_state;
 use crate::utils::{eval, pckg};
 use duckscript::types::command::{Command, CommandInvocationContext, CommandResult, Commands};
 use duckscript::types::runtime::StateValue;
+use std::cell::Cell;
 use std::collections::HashMap;
+
+/// An alias which (directly or through other aliases) stands for itself would call itself until the
+/// native stack is exhausted: alias invocations nested deeper than this are an error.
+static MAX_ALIAS_NESTING: usize = 64;
+
+thread_local! {
+    static ALIAS_NESTING: Cell<usize> = Cell::new(0);
+}
+
+/// One more alias invocation in progress on this thread for as long as the value lives.
+struct AliasNesting {
+    depth: usize,
+}
+
+impl AliasNesting {
+    fn enter() -> AliasNesting {
+        ALIAS_NESTING.with(|nesting| {
+            nesting.set(nesting.get() + 1);
+            AliasNesting {
+                depth: nesting.get(),
+            }
+        })
+    }
+}
+
+impl Drop for AliasNesting {
+    fn drop(&mut self) {
+        ALIAS_NESTING.with(|nesting| nesting.set(nesting.get() - 1));
+    }
+}
 
 #[cfg(test)]
 #[path = "./mod_test.rs"]
@@ -39,16 +70,25 @@ fn create_alias_command(
             all_arguments.append(&mut self.arguments.clone());
             all_arguments.append(&mut context.arguments.clone());
 
-            eval::eval_values_with_error(
-                &all_arguments,
-                context.instructions,
-                context.line,
-                context.output_variable,
-                context.state,
-                context.variables,
-                context.commands,
-                context.env,
-            )
+            let nesting = AliasNesting::enter();
+
+            if nesting.depth > MAX_ALIAS_NESTING {
+                CommandResult::Error(format!(
+                    "Alias: {} is nested too deep, does it refer to itself?",
+                    &self.name
+                ))
+            } else {
+                eval::eval_values_with_error(
+                    &all_arguments,
+                    context.instructions,
+                    context.line,
+                    context.output_variable,
+                    context.state,
+                    context.variables,
+                    context.commands,
+                    context.env,
+                )
+            }
         }
     }
 
